@@ -19,42 +19,39 @@
    T13_exactly_once - when every thread has finished, each handler has delivered exactly the
      jobs dispatched to it (a permutation of them; with T13b: the dispatch sequence itself
      for an ordered handler).
-   REFUTED as first stated: T13d_statement (no hang) is false when a signal may wake nobody
-   although a waiter exists (T13d_refuted: a lost wake-up schedule, maxt = 1) - pthread's
-   guarantee "signal wakes at least one waiter" must be a hypothesis; T13_without_sched_wf /
-   T13_without_prog_wf show that the other two hypotheses are needed as well.  The no-hang
-   clause with that hypothesis added is NOT proved (partial: in a terminal state of a
-   reachable run every live thread waits in cond_wait or join, or for the pool mutex held by
-   the destroyer; proofs/PoolLive.v when present); engine pl reports any deadlock of the real
-   threadpool.c on every explored schedule.
+   T13_ordered_sequence / T13_ordered_prefix - for an ordered handler the delivered jobs are, at
+     the end, exactly the dispatch sequence, and at EVERY reachable state a prefix of it (so the
+     pooled writer's handler sees its blocks in the order the caller cut them - the reason the
+     output file is byte-identical to the one written without a pool);
+   T13d_fair - NO HANG: for a program that respects the API contract and ends with the pool's
+     destruction, a pool of 1 <= maxt < 2^64 threads, and every schedule in which a signal wakes
+     a waiter of that condition variable whenever one exists (pthread_cond_signal's guarantee;
+     spurious wake-ups and the choice of the woken waiter stay arbitrary): a state in which no
+     thread can run is a state in which every thread has exited, and no assertion failed.  So
+     every finish / destroy call returns.  Proof: invariant Inv5 (no lost wake-up: each blocked
+     waiter is served by a pending signal or its condition is false; thread accounting modulo
+     2^64; handler exit implies its queue is drained) + T13_no_mutex_cycle (in a terminal state
+     every live thread is in cond_wait, in join, or waits for the pool mutex held by a joiner).
+   REFUTED as first stated: T13d_statement (no hang for EVERY schedule) is false when a signal
+   may wake nobody although a waiter exists (T13d_refuted: a lost wake-up schedule, maxt = 1) -
+   hence the hypothesis sched_fair of T13d_fair; T13_hypotheses shows the other hypotheses are
+   needed and that a complete concrete run meets all of them (proofs/PoolFairEx.v).
    Engine pl runs the real threadpool.c under a schedule-controlling pthread shim - the
    default schedule, EVERY single preemption of it, seeded random schedules with random
    signal targets and spurious wake-ups, pairs of preemptions (thorough) - and replays each
    trace on the LTS comparing, after every step, the operation performed and the set of
-   enabled threads; it also checks the hypotheses sched_wf and prog_wf on every trace.
+   enabled threads; it also checks the hypotheses sched_wf, sched_fair (extracted checker
+   sched_fairb, proved sound) and prog_wf on every trace, and that a trace ending in a state
+   with no enabled thread ends with every thread exited.
    Byte-identity of pooled writer output and equality of pooled sorter output are checked by
    engines wr and so with real threads (pools 0..8). *)
 From Coq Require Import NArith List Lia Permutation.
 From Mtbl Require Import model.Bytes model.Pool proofs.PoolProofs proofs.PoolSched proofs.PoolBase proofs.PoolInv proofs.PoolLife proofs.PoolStep2
-  proofs.PoolAbort proofs.PoolDelivery proofs.PoolExact proofs.PoolCex.
+  proofs.PoolAbort proofs.PoolDelivery proofs.PoolExact proofs.PoolCex proofs.PoolOrdered
+  proofs.PoolLive proofs.PoolLive1 proofs.PoolLive4 proofs.PoolFairEx.
 (* source ties: the statements of the C functions the model follows (gen/Ties.v is regenerated from /repo on every run) *)
 From Mtbl Require props.Ties_C13.
 Local Open Scope N_scope.
-
-Lemma pool_init_cinv maxt prog : cinv (pool_init maxt prog) /\ ps_max (pool_init maxt prog) = maxt.
-Proof.
-  unfold pool_init.
-  set (st0 := mkp [dummy_t] [] [] 0 maxt [] [] prog 0 [] false).
-  assert (H0 : cinv st0) by (unfold cinv; cbn; lia).
-  pose proof (caller_next_cinv st0 H0) as [H1 H2].
-  destruct (caller_next st0) as [st1 th]. cbn [fst] in H1, H2. unfold cinv, set_thread in *. cbn. split; [exact H1|exact H2].
-Qed.
-
-Lemma pspurious_cinv st t st' : cinv st -> pspurious st t = Some st' -> cinv st' /\ ps_max st' = ps_max st.
-Proof.
-  intros H E. unfold pspurious in E. destruct (t_blocked (gett st t)); [|discriminate].
-  inversion E; subst. unfold cinv, set_thread in *. cbn. split; [exact H|reflexivity].
-Qed.
 
 (* T13a *)
 Theorem T13a_never_more_workers_than_max : forall maxt prog s st stash,
@@ -122,6 +119,39 @@ Theorem T13_exactly_once : forall maxt prog s st stash, prog_wf prog = true ->
 Proof. exact PoolExact.T13_exactly_once. Qed.
 Print Assumptions T13_exactly_once.
 
+(* an ordered handler: at the end the delivered jobs ARE the dispatch sequence ... *)
+Theorem T13_ordered_sequence : forall maxt prog s st stash, prog_wf prog = true ->
+  sched_wf (pool_init maxt prog) [] s ->
+  prun (pool_init maxt prog) [] s = Some (st, stash) ->
+  all_done st ->
+  forall h, q_ordered (getq st h) = true ->
+    map snd (filter (fun p => Nat.eqb (fst p) h) (ps_delivered st)) = dispatched prog 0 h.
+Proof. exact PoolOrdered.T13_ordered_sequence. Qed.
+Print Assumptions T13_ordered_sequence.
+
+(* ... and at every reachable state a prefix of it *)
+Theorem T13_ordered_prefix : forall maxt prog s st stash, prog_wf prog = true ->
+  sched_wf (pool_init maxt prog) [] s ->
+  prun (pool_init maxt prog) [] s = Some (st, stash) ->
+  forall h, q_ordered (getq st h) = true ->
+    exists rest, dispatched prog 0 h = map snd (filter (fun p => Nat.eqb (fst p) h) (ps_delivered st)) ++ rest.
+Proof. exact PoolOrdered.T13_ordered_prefix. Qed.
+Print Assumptions T13_ordered_prefix.
+
+(* no hang, under pthread_cond_signal's guarantee (sched_fair): nothing enabled => everything has exited *)
+Theorem T13d_fair : forall maxt prog s st stash,
+  (1 <= maxt)%N -> (maxt < two64)%N -> prog_wf prog = true -> has_destroy prog = true ->
+  sched_fair (pool_init maxt prog) [] s ->
+  prun (pool_init maxt prog) [] s = Some (st, stash) ->
+  terminal st -> all_done st /\ ps_abort st = false.
+Proof. exact PoolLive4.T13d_fair. Qed.
+Print Assumptions T13d_fair.
+
+(* the executable schedule condition the engine evaluates implies the hypothesis of T13d_fair *)
+Theorem T13d_fair_checker_sound : forall s st stash, sched_fairb st stash s = true -> sched_fair st stash s.
+Proof. exact sched_fairb_sound. Qed.
+Print Assumptions T13d_fair_checker_sound.
+
 (* the no-hang statement as first written is false: a signal that wakes nobody although a waiter exists *)
 Theorem T13d_refuted : ~ T13d_statement.
 Proof. exact T13d_statement_false. Qed.
@@ -133,5 +163,13 @@ Print Assumptions T13d_refuted.
 Example T13_hypotheses :
   ~ sched_wf (pool_init 1 [NewHandler true; Dispatch 0]) [] cex_wake_sched /\
   (sched_wf (pool_init 1 cex_d_prog) [] cex_d_sched /\ prog_wf cex_d_prog = true) /\
-  sched_wf (pool_init 2 full_prog) [] full_sched.
-Proof. split; [exact cex_rogue_wake_not_wf|]. split; [exact cex_d_sched_wf|exact full_sched_wf]. Qed.
+  sched_wf (pool_init 2 full_prog) [] full_sched /\
+  ((1 <= 2)%N /\ (2 < two64)%N /\ prog_wf full_prog = true /\ has_destroy full_prog = true /\
+   sched_fair (pool_init 2 full_prog) [] full_sched /\
+   match prun (pool_init 2 full_prog) [] full_sched with
+   | Some (st, _) => terminalb st = true /\ forallb t_done (ps_threads st) = true /\ ps_abort st = false
+   | None => False
+   end).
+Proof.
+  split; [exact cex_rogue_wake_not_wf|]. split; [exact cex_d_sched_wf|]. split; [exact full_sched_wf|exact T13d_fair_hypotheses_met].
+Qed.
